@@ -574,6 +574,13 @@ var _ utils.PriorityQueue
 //@ func (*index.Hnsw).Save
 //@ props C08
 //@ trust check lossless
+// links among live items: a link is written (its distance is the only float32 Save hands to binary.Write; vector components go
+// through Vector.Save) only for a neighbour that is not a tombstone - the flag, not a lookup by id: a removed vertex whose id
+// has been inserted again is a different item
+//@ at call binary.Write
+//@ scope neighbor distance
+//@ requires [C08 links-to-live-items-only] istype($arg2, float32) ==> neighbor != nil && neighbor.deleted != 1
+//@ end
 //@ requires [graph] wfGraph(this) && !isnil(w)
 //@ requires [shards] wfShards(this) && wfStored(this) && this.config != nil
 //@ requires [header-fits] header ==> cfgFits(this.config)
